@@ -161,6 +161,10 @@ pub struct Node {
     pub prev: Option<usize>,
     /// sleep set (thread ids) in force at this node
     pub sleep: Vec<usize>,
+    /// the chosen thread's weak CAS was made to fail spuriously (a deviation)
+    pub spurious: bool,
+    /// enabled threads whose pending operation is a compare_exchange_weak
+    pub weak_cas: Vec<usize>,
 }
 
 #[derive(Clone, Debug, PartialEq)]
@@ -204,6 +208,8 @@ struct ExecState {
     cur_call_name: Vec<Option<String>>,
     finished: usize,
     max_steps: usize,
+    /// directive handed to a thread when it is woken
+    directive: Vec<Directive>,
     /// threads inside an API call (between CallBegin and CallEnd), for the waiting oracle
     pub in_call: Vec<Option<String>>,
     /// (spinning thread, its call, what every other thread was doing) observed when a thread was disabled by the spin rule
@@ -239,6 +245,7 @@ impl Exec {
                 cur_call_name: vec![None; n],
                 finished: 0,
                 max_steps,
+                directive: vec![Directive::Proceed; n],
                 in_call: vec![None; n],
                 spin_obs: vec![],
             }),
@@ -310,8 +317,13 @@ impl Exec {
         if pos == st.prefix.len() && st.use_sleep {
             st.sleep = std::mem::take(&mut st.sleep_after_prefix);
         }
+        let mut spurious = false;
         let chosen = if pos < st.prefix.len() {
-            let c = st.prefix[pos];
+            let mut c = st.prefix[pos];
+            if c >= n {
+                c -= n;
+                spurious = true;
+            }
             if !enabled.contains(&c) {
                 st.abort = Some(Abort::ReplayDivergence(format!("node {}: thread {} not enabled (enabled {:?})", pos, c, enabled)));
                 self.wake_all(st);
@@ -330,7 +342,14 @@ impl Exec {
                 _ => cand[0],
             }
         };
-        st.nodes.push(Node { enabled: enabled.clone(), pending: pend.clone(), chosen, prev: st.prev, sleep: st.sleep.clone() });
+        let weak_cas: Vec<usize> = enabled.iter().cloned().filter(|t| matches!(pend[*t].map(|p| p.kind), Some(PKind::Sync(OpKind::CmpXchg { weak: true })))).collect();
+        if spurious && !weak_cas.contains(&chosen) {
+            st.abort = Some(Abort::ReplayDivergence(format!("node {}: thread {} has no pending weak CAS to fail spuriously", pos, chosen)));
+            self.wake_all(st);
+            return;
+        }
+        st.directive[chosen] = if spurious { Directive::SpuriousFail } else { Directive::Proceed };
+        st.nodes.push(Node { enabled: enabled.clone(), pending: pend.clone(), chosen, prev: st.prev, sleep: st.sleep.clone(), spurious, weak_cas });
         // sleep-set propagation along the executed transition
         if st.use_sleep && pos >= st.prefix.len() {
             let cp = pend[chosen].unwrap();
@@ -349,9 +368,9 @@ impl Exec {
     }
 
     /// Park the calling thread at a scheduling point until it is chosen.
-    fn sched_point(&self, me: usize, p: Pending) {
+    fn sched_point(&self, me: usize, p: Pending) -> Directive {
         if std::thread::panicking() {
-            return;
+            return Directive::Proceed;
         }
         let mut st = self.st.lock().unwrap();
         if st.abort.is_some() {
@@ -374,6 +393,7 @@ impl Exec {
         st.status[me] = TStatus::Running;
         let call = st.cur_call_name[me].clone();
         st.steps.push(StepRec { thread: me, kind: p.kind, addr: p.addr, ord: p.ord, ord_fail: p.ord_fail, operand: p.operand, expected: p.expected, outcome: None, call });
+        std::mem::replace(&mut st.directive[me], Directive::Proceed)
     }
 
     fn finish_thread(&self, me: usize, panic_msg: Option<String>) {
@@ -409,8 +429,7 @@ pub struct ThreadHook {
 
 impl SyncHook for ThreadHook {
     fn before(&self, op: &Op) -> Directive {
-        self.exec.sched_point(self.me, Pending::from_op(op));
-        Directive::Proceed
+        self.exec.sched_point(self.me, Pending::from_op(op))
     }
 
     fn after(&self, op: &Op, out: &Outcome) {
@@ -506,8 +525,13 @@ pub struct Execution {
 }
 
 impl Execution {
+    /// Choice list (replay artefact): thread id, or `threads + id` for "this thread, and its weak CAS fails spuriously".
     pub fn choices(&self) -> Vec<usize> {
-        self.nodes.iter().map(|n| n.chosen).collect()
+        let n = self.nodes.first().map(|x| x.pending.len()).unwrap_or(0);
+        self.nodes.iter().map(|x| if x.spurious { n + x.chosen } else { x.chosen }).collect()
+    }
+    pub fn deviations(&self) -> usize {
+        self.nodes.iter().filter(|x| x.spurious).count()
     }
     pub fn preemptions(&self) -> usize {
         self.nodes.iter().filter(|n| matches!(n.prev, Some(p) if p != n.chosen && n.enabled.contains(&p))).count()
@@ -671,6 +695,9 @@ struct Shared2 {
     queue: Mutex<(Vec<Work>, usize)>, // (stack, workers busy)
     cv: Condvar,
 }
+
+/// Number of spurious weak-CAS failures allowed per execution (0 or 1), set by the check binaries.
+pub static SPURIOUS_BUDGET: std::sync::atomic::AtomicUsize = std::sync::atomic::AtomicUsize::new(0);
 
 /// Explore all schedules of `driver` in the given mode, in parallel.
 pub fn explore<D: Driver + 'static>(driver: D, mode: Mode, max_execs: u64, workers: usize) -> ExploreResult {
@@ -846,6 +873,21 @@ pub fn explore<D: Driver + 'static>(driver: D, mode: Mode, max_execs: u64, worke
                                             done.push(alt);
                                         }
                                     }
+                                }
+                            }
+                            // deviation: a spurious failure of a pending weak CAS (no reduction below it)
+                            if i >= work.prefix.len() && x.nodes[..i].iter().filter(|m| m.spurious).count() < SPURIOUS_BUDGET.load(MemOrd::Relaxed) && !node.spurious {
+                                let nthreads = node.pending.len();
+                                for &t in &node.weak_cas {
+                                    let cost = pre + if is_preempt(t) { 1 } else { 0 };
+                                    if let Mode::B(bound) = mode {
+                                        if cost > bound {
+                                            continue;
+                                        }
+                                    }
+                                    let mut p = choices[..i].to_vec();
+                                    p.push(nthreads + t);
+                                    children.push(Work { prefix: p, sleep: vec![], preemptions: cost });
                                 }
                             }
                             if is_preempt(node.chosen) {
